@@ -3724,6 +3724,10 @@ class BindMacro(Macro):
                 print('prem', prem)
                 print('goal', goal)
                 raise VeriTException("bind", "can't map lhs quantified variables to rhs")
+            # Side condition of the rule: the new bound variable is not free in lhs,
+            # otherwise renaming captures it.
+            if lhs.occurs_var(rv):
+                raise VeriTException("bind", "bound variable of rhs occurs free in lhs")
 
         remain_hyps = []
         for hyp in prem.hyps:
